@@ -360,7 +360,15 @@ func (g *Gen) zeroInitD(r string, t types.Type, depth int) {
 	switch u := t.Underlying().(type) {
 	case *types.Struct:
 		if depth > 0 && !inRepo(namedPkg(t)) {
-			return // embedded library structs (mutexes, buffers): opaque
+			// embedded library structs (mutexes, buffers): opaque apart from their ghost state
+			for name := range g.S.Ghost {
+				if _, known := g.heapSort["G."+name]; !known {
+					continue
+				}
+				h, s, _ := g.ghostHeap(name)
+				g.guard(eq("(select "+g.heap(h)+" "+r+")", zeroOf(s)))
+			}
+			return
 		}
 		for i := 0; i < u.NumFields(); i++ {
 			f := u.Field(i)
@@ -371,15 +379,13 @@ func (g *Gen) zeroInitD(r string, t types.Type, depth int) {
 			h := g.fieldHeap(t, f)
 			g.guard(eq("(select "+g.heap(h)+" "+r+")", zeroOf(sortOf(f.Type()))))
 		}
-		// ghost fields of fresh objects start at their zero value
-		if depth > 0 {
-			return
-		}
+		// ghost fields of fresh objects start at their zero value (only ghost state this VC mentions)
 		for name := range g.S.Ghost {
-			h, s, _ := g.ghostHeap(name)
-			if g.ghostUsed(name) {
-				g.guard(eq("(select "+g.heap(h)+" "+r+")", zeroOf(s)))
+			if _, known := g.heapSort["G."+name]; !known {
+				continue
 			}
+			h, s, _ := g.ghostHeap(name)
+			g.guard(eq("(select "+g.heap(h)+" "+r+")", zeroOf(s)))
 		}
 	case *types.Array:
 		h := g.arrHeap(u.Elem())
